@@ -625,24 +625,32 @@ def Variant.build (ver : Nat × Nat) (full : PyVal) : Nat → Ctx → Str → Ex
       | .ok () => .ok v
     | _, _, _ => .error .other
 
-/-- the set `child_variants` of `Variants.deserialize`: `"%s-%s" % (var["uid"], child)` over all entries -/
-def childUids (entries : List (Str × PyVal)) : Except Err (List Str) :=
-  entries.foldr (fun (_, var) acc =>
-    match acc with
+/-- the children one entry announces: `"%s-%s" % (var["uid"], child) for child in var.get("variants", [])` -/
+def refsOfVal (var : PyVal) : Except Err (List Str) :=
+  match getD var k%"variants" (.list []) with
+  | .error e => .error e
+  | .ok kv =>
+    match asStrList kv with
     | .error e => .error e
-    | .ok rest =>
-      match getD var k%"variants" (.list []) with
+    | .ok [] => .ok []
+    | .ok ids =>
+      match sub var k%"uid" with
       | .error e => .error e
-      | .ok kv =>
-        match asStrList kv with
+      | .ok u =>
+        match asStr u with
         | .error e => .error e
-        | .ok [] => .ok rest
-        | .ok ids =>
-          match sub var k%"uid" with
-          | .error e => .error e
-          | .ok u => match asStr u with
-            | .error e => .error e
-            | .ok uid => .ok (ids.map (fun i => uid ++ '-' :: i) ++ rest)) (.ok [])
+        | .ok uid => .ok (ids.map fun i => uid ++ '-' :: i)
+
+/-- the set `child_variants` of `Variants.deserialize`, over all entries in document order -/
+def childUids : List (Str × PyVal) → Except Err (List Str)
+  | [] => .ok []
+  | (_, var) :: rest =>
+    match refsOfVal var with
+    | .error e => .error e
+    | .ok l =>
+      match childUids rest with
+      | .error e => .error e
+      | .ok r => .ok (l ++ r)
 
 /-- `Variants.deserialize` for documents `>= 1.0`: top-level = not referenced as a child; sorted; built; added -/
 def variantsDe (ver : Nat × Nat) (payload : PyVal) : Except Err (List Variant) :=
